@@ -190,7 +190,13 @@ fn gen_lib(rng: &mut SplitMix64, max_bits: usize, fl: Flavour, conditioned: bool
         } else { rng.pick(LIB) };
         if e.2 <= max_bits
         {
-            let mut ps: Vec<P> = (0..e.1).map(|_| gen_param(rng, fl)).collect();
+            // huge magnitudes only in one-parameter gates: with two or three parameters `phi + lambda` absorbs the
+            // smaller one in f64, in the simulator and in the template arithmetic alike but not identically
+            let mut ps: Vec<P> = (0..e.1).map(|_| loop {
+                let p = gen_param(rng, fl);
+                let big = match &p { P::Val(x) => x.abs() > 1.0e6, P::Ref(_, x) => x.abs() > 1.0e6 };
+                if e.1 == 1 || !big { break p; }
+            }).collect();
             // the clean flavour keeps CRY / CCRY angles positive (negative ones print `--`)
             if fl == Flavour::Clean && (e.0 == "CRY" || e.0 == "CCRY" || e.0 == "CCRX" || e.0 == "CRX")
             {
@@ -521,6 +527,10 @@ fn main()
         let mut c = Case::new(2, 2);
         c.cgate(&[0], 1, &lp(0, 1, vec![(lib("H"), vec![0])]), &[1]); c.gate(&lib("H"), &[0]);
         c.run(&mut out);
+        // defect: a Loop inside a Loop (cQASM sub-circuits do not nest)
+        let mut c = Case::new(1, 0);
+        c.gate(&lp(2, 1, vec![(GT::Loop("inner".into(), 1, "ib".into(), 1, vec![(lib("T"), vec![0])]), vec![0]), (lib("H"), vec![0])]), &[0]);
+        c.run(&mut out);
         // defect: instruction names that are not cQASM
         for n in ["CH", "CV", "CVdg"]
         {
@@ -616,7 +626,7 @@ fn main()
             let ps: Vec<P> = (0..e.1).map(|i| match variant {
                 0 => P::Val([0.5, 1.25, 2.0][i % 3]),
                 1 => P::Val([-0.5, -1.25, -2.0][i % 3]),
-                2 => P::Val(*rng.pick(EXOTIC)),
+                2 => P::Val(if e.1 == 1 { *rng.pick(EXOTIC) } else { *rng.pick(&[1.0e-300, 5.0e-324, -0.0, 1.0e-7, 123456.125]) }),
                 3 => if i == 0 { P::Ref("theta".into(), 0.75) } else { P::Val(0.3) },
                 _ => P::Val((rng.unit() - 0.5) * 14.0)
             }).collect();
